@@ -173,9 +173,26 @@ pub fn observe_compat(case: &J, unix: bool) -> J {
 pub fn cmd_obs_compat(args: &[String]) {
     let every: u64 = args.get(2).map(|s| s.parse().unwrap()).unwrap_or(0);
     let n = std::cell::Cell::new(0u64);
+    // watchdog (tool failure, never a verdict): a connection run that neither delivers nor ends
+    let progress = Arc::new(std::sync::atomic::AtomicU64::new(0));
+    let p2 = progress.clone();
+    std::thread::spawn(move || {
+        let mut last = 0;
+        loop {
+            std::thread::sleep(std::time::Duration::from_secs(120));
+            let now = p2.load(Ordering::SeqCst);
+            if now == last {
+                eprintln!("obs-compat: no progress for 120 s at case {now}; giving up");
+                std::process::exit(3);
+            }
+            last = now;
+        }
+    });
     mk::for_each_line(&args[0], &args[1], |c| {
         let i = n.get();
         n.set(i + 1);
-        observe_compat(c, every > 0 && i % every == 0)
+        let o = observe_compat(c, every > 0 && i % every == 0);
+        progress.fetch_add(1, Ordering::SeqCst);
+        o
     });
 }
